@@ -439,11 +439,11 @@ func (m *mbCluster) discover() error {
 		t, f := m.vc.nodes[p.t], m.vc.nodes[p.from]
 		hlb := t.Store.HasLeader()
 		err := t.Store.Notify(&proto.NotifyRequest{Id: f.ID, Address: f.Addr})
-		hla := t.Store.HasLeader()
 		cfg, cerr := m.cfgOf(t)
 		if cerr != nil {
 			return cerr
 		}
+		hla := t.Store.HasLeader() // sampled after the configuration: a configuration learned from a leader implies hla
 		res := "ok"
 		if err != nil {
 			res = "error:" + err.Error()
@@ -517,11 +517,11 @@ func mbNotifyHistory(base string, idx int, rng *rand.Rand, st *mbStats) error {
 		}
 		hlb := n.Store.HasLeader()
 		err := n.Store.Notify(&proto.NotifyRequest{Id: id, Address: ports[addr]})
-		hla := n.Store.HasLeader()
 		cfg, cerr := m.cfgOf(n)
 		if cerr != nil {
 			return cerr
 		}
+		hla := n.Store.HasLeader()
 		res := "ok"
 		if err != nil {
 			res = "error:" + err.Error()
